@@ -1886,6 +1886,11 @@ namespace
     value selectrandom_array(runtime& runtime, value::cref right)
     {
         auto arr = right.data<d_array>();
+        if (arr->empty())
+        {
+            runtime.__logmsg(err::ReturningNil(runtime.context_active().current_frame().diag_info_from_position()));
+            return {};
+        }
         return arr->at(rand() % arr->size());
     }
     value sleep_scalar(runtime& runtime, value::cref right)
